@@ -19,6 +19,11 @@ func rulesC12(c *Ctx) {
 	c12Builders(c)
 	// "circuit breakers … alike": the breaker's standalone record entry points classify with the same IsFailure
 	c04RecordInternals(c)
+	// "retries … alike: any abort match aborts": the retry decision consults the abort conditions whatever the budget;
+	// "fallbacks … alike": the fallback classifies its own output by the same conditions
+	c.Rule("retry-decision")
+	retryDecision(c, map[string]bool{"decision": true})
+	c10Apply(c)
 }
 
 // ---- C12.isfailure -------------------------------------------------------------------------------------
